@@ -466,6 +466,38 @@ def c03_m_ringitem_delete(ctx, v):
                         if ex.feasible(o.pc, wrong):
                             L.fail_structural(v, o, "k=%d: deleting entry %d moves the longest-chain designation to a different block" % (k, j))
                             bad = True
+                if bad and v.replay_rust is None:
+                    rr, mm = ex.model_for(o.pc)
+                    if rr == z3.sat:
+                        v.replay_rust = _replay_ringitem_delete(mm, ids, hs, p_some, p_idx, j)
                 ok += 0 if bad else 1
     v.covers_total += 1
     v.covers_sat += 1 if ok else 0
+
+
+def _replay_ringitem_delete(m, ids, hs, p_some, p_idx, j):
+    ev = lambda x: m.eval(x, model_completion=True)
+    byts = lambda h: "[" + ", ".join(str(ev(z3.Select(h.arr, z3.BitVecVal(i, 64))).as_long()) for i in range(32)) + "]"
+    adds = "\n".join("    item.add_block(%d, %s);" % (ev(ids[i].bv).as_long(), byts(hs[i])) for i in range(len(ids)))
+    lc = "Some(%d)" % ev(p_idx).as_long() if z3.is_true(ev(p_some)) else "None"
+    src = """
+#[test]
+fn replay_c03_ringitem_delete() {
+    use saito_core::core::consensus::ringitem::RingItem;
+    let mut item = RingItem::default();
+%s
+    item.lc_pos = %s;
+    let before: Vec<(u64, [u8; 32])> = item.block_ids.iter().cloned().zip(item.block_hashes.iter().cloned()).collect();
+    let designated = item.lc_pos.map(|p| before[p]);
+    let victim = before[%d];
+    item.delete_block(victim.0, victim.1);
+    let after: Vec<(u64, [u8; 32])> = item.block_ids.iter().cloned().zip(item.block_hashes.iter().cloned()).collect();
+    assert_eq!(after.len(), before.len() - 1, "exactly one entry removed");
+    for e in before.iter().filter(|e| **e != victim) { assert!(after.contains(e), "a surviving entry disappeared"); }
+    match designated {
+        Some(d) if d != victim => assert_eq!(item.lc_pos.map(|p| after[p]), Some(d), "the designation moved to a different block"),
+        _ => assert_eq!(item.lc_pos, None, "a designation exists although the designated block was deleted / there was none"),
+    }
+}
+""" % (adds, lc, j)
+    return ("replay_c03_ringitem_delete", src)
